@@ -55,7 +55,22 @@ class _Gen:
         return f
 
     def fields(self, depth, n):
-        return [self.field(depth) for _ in range(n)]
+        """the fields of one parent object. The parent is either a Mapping (its default-resolved
+        fields are dict values: mode V) or a plain object (methods S / D, attributes A)"""
+        fs = [self.field(depth) for _ in range(n)]
+        dict_parent = any(f["m"] == "V" for f in fs) and self.rng.random() < 0.7
+        count = {}
+        for f in fs:
+            if dict_parent and f["m"] in ("S", "D", "A"):
+                f["m"] = "V"
+            elif not dict_parent and f["m"] == "V":
+                f["m"] = "A"
+            if f["m"] in ("A", "V"):
+                key = (sp.shape_of(f), f["m"])
+                count[key] = count.get(key, 0) + 1
+                if count[key] > 3:           # only three name variants per shape
+                    f["m"] = "P"
+        return fs
 
     def list_body(self, depth):
         rng = self.rng
@@ -126,10 +141,12 @@ def has_exn(program):
 
 
 def gen_program(rng, op, min_tasks=1, max_tasks=6, p_exn=0.0, p_err=0.12, p_lv=0.15,
-                modes=("S", "P", "C", "C"), top=(1, 4), depth=2):
+                modes=("S", "P", "C", "C", "D", "D", "A", "V"), top=(1, 4), depth=2):
     for _ in range(2000):
         g = _Gen(rng, p_exn, p_err, p_lv, list(modes))
         prog = {"op": op, "fields": g.fields(depth, rng.randint(*top))}
+        if rng.random() < 0.25:
+            prog["mw"] = True          # a pass-through middleware around every resolver
         if min_tasks <= n_tasks(prog, "pool") <= max_tasks:
             return prog
     raise RuntimeError("generator could not meet the task bounds")
@@ -210,10 +227,12 @@ def sub_programs(program):
                     yield fields[:i] + [dict(f, b=b[:3] + [b[3][:j] + b[3][j + 1:]])] + fields[i + 1:]
             if f["lv"]:
                 yield fields[:i] + [dict(f, lv=0)] + fields[i + 1:]
-            if f["m"] != "S":
-                yield fields[:i] + [dict(f, m="S")] + fields[i + 1:]
+            if f["m"] not in ("S", "V", "A", "P"):
+                yield fields[:i] + [dict(f, m="P")] + fields[i + 1:]
 
     if "render" in program:
         yield {k: v for k, v in program.items() if k != "render"}
+    if program.get("mw"):
+        yield {k: v for k, v in program.items() if k != "mw"}
     for fs in drop_in(program["fields"]):
         yield dict(program, fields=fs)
